@@ -413,7 +413,7 @@ def r09e(ctx):
             continue
         i = ins[0]
         # the replaced value must be used: a Some edge of the insert result leading to a subtraction derived from it
-        some = a.variant_edges(i, 'core::option::Option<').get('1', [])
+        some = a.some_edges(a.variant_edges(i, 'core::option::Option<'))
         ok = bool(some) and bool(subs) and all(a.cfg.must_pass(b, via_edges=some) for (b, e) in subs) and all(flow.mentions(e, lambda z: a.rooted_at(z, i)) for (b, e) in subs)
         ctx.check(ok, 'R09e', a.path, 'insert', a.loc(i), 'the value replaced by the insert is inspected and its contribution is subtracted from the running size (on the Some edge only)',
                   'the running shard size is incremented while the value replaced by BTreeMap::insert is discarded: re-adding a record counts it twice')
